@@ -1196,6 +1196,14 @@ def bind_battery():
     b.append(sc("A Y\ndeclare V = Q;\nlet t = V + 1;\n(t) X\n", "err", "a let reads a declared signal"))
     b.append(sc("A Y V W\ndeclare V = Q;\ndeclare W = V + 1;\n0 X X X\n", "err", "a declaration reads another declared signal"))
     b.append(sc("A Y\ndeclare V = Q;\nlet V = 2;\n(V) X\n", "ok", "a variable named like a declared signal is a variable"))
+    # ninth round: the bound of a loop / repeat is parsed OUTSIDE the scope it opens: a bound that names the statement's own
+    # counter reads a signal (or an outer variable) of that name, and is an error when there is none
+    b.append(sc("A Y\nloop(k, k + 2)\n(k) X\nend loop\n", "err", "loop bound names its own counter, no such signal"))
+    b.append(sc("A Y\nloop(Q, Q + 2)\n(Q) X\nend loop\n", "ok", "loop bound names its own counter, an output of that name exists"))
+    b.append(sc("A Y\nlet k = 2;\nloop(k, k)\n(k) X\nend loop\n", "ok", "loop bound names its own counter, an outer variable of that name exists"))
+    b.append(sc("A Y\nrepeat(n + 1) (n) X\n", "err", "repeat bound names the implicit counter n, no such signal"))
+    b.append(sc("A Y\nloop(i, 2)\nloop(j, j + 1)\n(j) X\nend loop\nend loop\n", "err", "inner loop bound names its own counter, no such signal"))
+    b.append(sc("A Y\nloop(i, 2)\nloop(j, i + 1)\n(j) X\nend loop\nend loop\n", "ok", "inner loop bound names the outer counter"))
     return b
 
 
